@@ -273,7 +273,7 @@ def finishExport (c : Case) (st : Stats) : IO Stats := do
           let nm := if p.what == "reserved" then Vhdl.lcs p.name else p.name
           -- sig: the shape of the failure (kinds of the two declarations for duplicates, the word for reserved words)
           let kindsOf := (p.detail.splitOn " ").filter fun w => ["port", "signal", "variable", "constant", "component", "label", "entity", "package", "param"].contains w
-          let sg := if p.what == "reserved" then (if Gatery.Gen.keywordTable.contains nm then "reserved-although-in-table" else s!"reserved:{nm}") else if p.what == "duplicate" then s!"duplicate:{"/".intercalate (kindsOf.take 2)}" else p.what
+          let sg := if p.what == "reserved" then (if Gatery.Gen.keywordTable.contains nm then "reserved-although-in-table" else s!"reserved:{nm}") else if p.what == "duplicate" then s!"duplicate:{"/".intercalate (kindsOf.take 2)}" else if p.what == "width" && (p.detail.splitOn "literal").length > 1 then "width:literal" else p.what
           emit "PROPFAIL" c.id s!"what={p.what} sig={sg} name={nm} line={p.line} detail=[{p.detail}] text=[{src.trimAscii.toString}]"
     return st
 
